@@ -58,7 +58,12 @@ func Abs(ctx *expr.Context, input system.Collection, args ...expr.Expression) (s
 		}
 		// Absolution number
 		res := math.Abs(f)
-		return system.Collection{system.MustParseQuantity(fmt.Sprintf("%f", res), quantity[1])}, nil
+		// A quantity without a unit renders as the bare number
+		unit := ""
+		if len(quantity) > 1 {
+			unit = quantity[1]
+		}
+		return system.Collection{system.MustParseQuantity(fmt.Sprintf("%f", res), unit)}, nil
 	}
 	return nil, errors.New("input is not a number")
 }
